@@ -60,8 +60,14 @@ def instantiate_type(
         for idx, instantiation in enumerate(ctype.typename.instantiations):
             if instantiation.name in template_typenames:
                 template_idx = template_typenames.index(instantiation.name)
-                ctype.typename.instantiations[idx].name =\
-                    instantiations[template_idx]
+                # Take over name, namespaces and template arguments of the
+                # instantiation (the name has to stay a string).
+                template_inst = deepcopy(instantiations[template_idx])
+                instantiation.namespaces = instantiation.namespaces + \
+                    list(template_inst.namespaces)
+                instantiation.instantiations = list(
+                    template_inst.instantiations)
+                instantiation.name = template_inst.name
 
 
     str_arg_typename = str(ctype.typename)
